@@ -17,6 +17,8 @@ def run(ctx):
     D.idle_reset(ctx)
     ctx.rule("R-SEED-ANY", "client: a seed response is answered with the key whatever the 16-bit seed (0xFFFF included)", floor=1)
     D.seed_any(ctx)
+    ctx.rule("R-QUEUE-TYPESTATE", "server respond() blocks on the data queue only in the write transaction's WAIT_FOR_DM16 state (a refused write returns)", floor=3)
+    D.queue_typestate(ctx)
     ctx.rule("R-SEED-BIND", "server: the stored seed changes only when a seed message carrying it is sent", floor=1)
     D.seed_bind(ctx)
     return "key-check dominance, error translation, bounded wait and restore-on-all-exits of the DM14 facade, client and server"
